@@ -5,7 +5,7 @@ A tree is a tuple:
   ('PL', period, offset) ('PG', period, offset)              PeriodLocal / PeriodGlobal (constructor arguments)
   ('IL', lo, hi) ('IG', lo, hi)                              ClosedIntervalLocal / Global (None = unbounded)
   ('And', [t..]) ('Or', [t..]) ('Xor', [t..]) ('Not', t)
-  ('Rep', kind, arg, use_train, repetition)                  RepeatedMetric<kind>(arg, use_train, 'loss', repetition)
+  ('Rep', kind, arg, use_train, repetition[, metric])        RepeatedMetric<kind>(arg, use_train, metric or 'loss', repetition)
 
 Three independent readings of a tree live here:
   build(CB, t)   the REAL callback object of the tree under test,
@@ -85,6 +85,10 @@ def class_name(t):
     return CLASS_OF[t[0]]
 
 
+def metric_of(t):
+    return t[5] if len(t) > 5 else 'loss'
+
+
 def show(t):
     k = t[0]
     if k in LEAVES0:
@@ -96,7 +100,7 @@ def show(t):
     if k == 'Not':
         return '~' + show(t[1])
     if k == 'Rep':
-        return f'RepeatedMetric{t[1]}({t[2]}, use_train={t[3]}, repetition={t[4]})'
+        return f'RepeatedMetric{t[1]}({t[2]}, use_train={t[3]}, metric={metric_of(t)!r}, repetition={t[4]})'
     return f'{CLASS_OF[k]}([' + ', '.join(show(c) for c in t[1]) + '])'
 
 
@@ -127,18 +131,19 @@ def build(CB, t, use_ops=None):
         sub = build(CB, t[1], use_ops)
         return ~sub if use_ops is not None else CB.NotCallback(sub)
     if k == 'Rep':
-        kind, arg, tr, n = t[1:]
+        kind, arg, tr, n = t[1:5]
+        mt = metric_of(t)
         if kind == 'Up':
-            return CB.RepeatedMetricUp(at_least_by=arg, use_train=tr, metric='loss', repetition=n)
+            return CB.RepeatedMetricUp(at_least_by=arg, use_train=tr, metric=mt, repetition=n)
         if kind == 'Down':
-            return CB.RepeatedMetricDown(at_least_by=arg, use_train=tr, metric='loss', repetition=n)
+            return CB.RepeatedMetricDown(at_least_by=arg, use_train=tr, metric=mt, repetition=n)
         if kind == 'Converge':
-            return CB.RepeatedMetricConverge(epsilon=arg, use_train=tr, metric='loss', repetition=n)
+            return CB.RepeatedMetricConverge(epsilon=arg, use_train=tr, metric=mt, repetition=n)
         if kind == 'Diverge':
-            return CB.RepeatedMetricDiverge(gap=arg, use_train=tr, metric='loss', repetition=n)
+            return CB.RepeatedMetricDiverge(gap=arg, use_train=tr, metric=mt, repetition=n)
         if kind == 'Below':
-            return CB.RepeatedMetricBelow(arg, tr, 'loss', n, None)
-        return CB.RepeatedMetricAbove(arg, tr, 'loss', n, None)
+            return CB.RepeatedMetricBelow(arg, tr, mt, n, None)
+        return CB.RepeatedMetricAbove(arg, tr, mt, n, None)
     kids = [build(CB, c, use_ops) for c in t[1]]
     if use_ops is not None and len(kids) == 2 and use_ops.random() < 0.6:
         return {'And': lambda a, b: a & b, 'Or': lambda a, b: a | b, 'Xor': lambda a, b: a ^ b}[k](*kids)
@@ -177,10 +182,10 @@ def to_coq(t):
     if k == 'Not':
         return f'(PNot {to_coq(t[1])})'
     if k == 'Rep':
-        kind, arg, tr, n = t[1:]
+        kind, arg, tr, n = t[1:5]
         rk = {'Up': f'(RUp {z(arg)})', 'Down': f'(RDown {z(arg)})', 'Converge': f'(r_converge {z(arg)})',
               'Diverge': f'(r_diverge {z(arg)})', 'Below': f'(RBelow {z(arg)})', 'Above': f'(RAbove {z(arg)})'}[kind]
-        return f'(repeated {rk} {coq_bool(tr)} {z(n)})'
+        return f'(repeated_m {rk} {coq_bool(tr)} "{metric_of(t)}"%string {z(n)})'
     return '(' + {'And': 'PAnd', 'Or': 'POr', 'Xor': 'PXor'}[k] + ' ' + coq_list([to_coq(c) for c in t[1]]) + ')'
 
 
@@ -211,7 +216,8 @@ def doc_rep(kind, arg, n, h):
     return all(rel_doc(kind, arg, h[-1 - i], h[-2 - i]) for i in range(n))
 
 
-def doc(t, l, g, m, ht=(), hv=()):
+def doc(t, l, g, m, ht=(), hv=(), custom=None):
+    """custom: {metric name: (train series, valid series)} of the solver's custom metrics (chronological)."""
     k = t[0]
     if k == 'T':
         return True
@@ -230,10 +236,15 @@ def doc(t, l, g, m, ht=(), hv=()):
         e = l if k == 'IL' else g
         return (t[1] is None or t[1] <= e) and (t[2] is None or e <= t[2])
     if k == 'Not':
-        return not doc(t[1], l, g, m, ht, hv)
+        return not doc(t[1], l, g, m, ht, hv, custom)
     if k == 'Rep':
-        return doc_rep(t[1], t[2], t[4], ht if t[3] else hv)
-    vals = [doc(c, l, g, m, ht, hv) for c in t[1]]
+        mt = metric_of(t)
+        if mt == 'loss':
+            h = ht if t[3] else hv
+        else:                       # "present in solver.metrics_fn.keys()": the series recorded for that metric in that phase
+            h = (custom or {})[mt][0 if t[3] else 1]
+        return doc_rep(t[1], t[2], t[4], h)
+    vals = [doc(c, l, g, m, ht, hv, custom) for c in t[1]]
     if k == 'And':
         return all(vals)
     if k == 'Or':
